@@ -199,6 +199,14 @@ impl InstructionGenerator {
         }
     }
 
+    /// Replaces the value of A with true if it is zero and with false otherwise
+    /// (`UNTIL x` continues while `x` is zero; `NOT x` would only do for x = 0 and x = -1).
+    fn generate_is_zero(&mut self, pos: Position) {
+        self.push(Instruction::CopyAToB, pos);
+        self.push_load(Variant::VInteger(0), pos);
+        self.push(Instruction::Equal, pos);
+    }
+
     fn generate_do_loop_top(
         &mut self,
         condition: ExpressionPos,
@@ -209,7 +217,7 @@ impl InstructionGenerator {
         self.label("do", pos);
         self.generate_expression_instructions(condition);
         if kind == DoLoopConditionKind::Until {
-            self.push(Instruction::NotA, pos);
+            self.generate_is_zero(pos);
         }
         self.jump_if_false("loop", pos);
         self.visit(statements);
@@ -230,7 +238,7 @@ impl InstructionGenerator {
         self.mark_statement_address(); // to be able to resume on error
         self.generate_expression_instructions(condition);
         if kind == DoLoopConditionKind::Until {
-            self.push(Instruction::NotA, pos);
+            self.generate_is_zero(pos);
         }
         self.jump_if_false("loop", pos);
         self.jump("do", pos);
